@@ -9,25 +9,28 @@ REGISTRATION = {
     "technique": "Lean 4 proof over a byte-level model of stop.go + flushPending + the per-token loop; "
                  "differential correspondence against the real processBatch driven by a scripted model",
     "category": "proof",
-    "text": "Kernel-checked theorems, for every list of generated pieces, every stop list and every prediction limit, "
-            "over a Lean model of FindStop/ContainsStopSuffix/TruncateStop/IncompleteUnicode, utf8.ValidString (as a "
-            "byte automaton), flushPending and the per-token loop of processBatch: every streamed chunk is valid "
-            "UTF-8; for generated text that is (a prefix of) valid UTF-8 the output is a prefix of it cut on "
-            "character boundaries; with valid non-empty stops the run ends at the first token that completes a stop, "
-            "the output is the text before the found stop; the finish-reason map and what each cause means in terms of "
-            "the script. The multi-stop 'contains no stop' clause is false on the pinned code (FindStop takes the first "
-            "listed stop, finding F7, Lean witness) and is proved under the guard 'first listed = earliest'; for the "
-            "repaired FindStop (proposed_fixes/C14-F7.patch, model flag pinned=false) it is proved in full. The model is compared exactly with the real functions of "
-            "runner/common, with the real ollamarunner.Server.processBatch/removeSequence/flushPending (one real "
-            "processBatch call per token, scripted model + greedy sampler behind the Server) and with the real "
-            "llamarunner.flushPending; the llamarunner loop (needs llama.cpp and a model file) is tied by a go/ast "
-            "skeleton of its output statements regenerated on every run.",
+    "text": "Kernel-checked theorems, for every list of generated pieces/EOS, every stop list and every prediction limit, "
+            "over a Lean model of FindStop (pinned and repaired variant)/ContainsStopSuffix/TruncateStop/IncompleteUnicode, "
+            "utf8.ValidString (byte automaton), flushPending, the per-token loop of processBatch, the buffered response "
+            "channel with a lagging reader, and calls in which a sequence is not sampled because of its batch-mates. "
+            "c14_streamed_text states the whole property for the tree as it is (repaired FindStop): chunks valid UTF-8, "
+            "output a prefix of the generated text cut on character boundaries, no stop inside, ends right before the "
+            "earliest stop with reason stop, otherwise at EOS/limit with everything streamed, and the reader receives "
+            "exactly these chunks whatever its schedule; consumer_schedule_independent, batch_mates_independent and "
+            "disconnect_prefix say that the stream is a function of (pieces, stops, limit) only. For the pinned FindStop the "
+            "multi-stop clause is false (finding F7, fixed in /repo; Lean witness) and proved under a guard. The model is "
+            "compared exactly with the real functions of runner/common, with the real ollamarunner loop (NewSequence, "
+            "LoadCacheSlot, processBatch, removeSequence, flushPending; scripted model + greedy sampler behind the Server) run "
+            "with a prompt reader, with lagging/disconnecting readers (testing/synctest) and with 2-3 sequences per Server, "
+            "and with the real llamarunner.flushPending; the llamarunner loop (needs llama.cpp and a model file) is tied by a "
+            "go/ast skeleton of its output statements regenerated on every run.",
     "design_ref": "DESIGN.md §5 C14, §6 F7/F20",
-    "note": COMMON_NOTE + "Modelled, not verified: one sequence per Server (the loop body touches only per-sequence "
-            "state), the receiver of seq.responses keeps reading (the connection-closed branch is not modelled), "
-            "stop strings reach the runner through JSON and are therefore valid UTF-8 (the stop clauses are stated "
-            "for valid stops; arbitrary-byte stops are still covered by L1), the llamarunner per-token loop is "
-            "compared structurally (same statement skeleton as the executed ollamarunner loop), not executed.",
+    "note": COMMON_NOTE + "Modelled, not verified: what the decode loop does after the client disconnected (the select "
+            "in flushPending is then nondeterministic; disconnect_prefix covers what the client holds, L2 monitors the rest), "
+            "stop strings reach the runner through JSON and are therefore valid UTF-8 (the stop clauses are stated for valid "
+            "non-empty stops; arbitrary-byte and empty stops are still covered by L1 and by prefix_valid/chunks_valid), the "
+            "llamarunner per-token loop is compared structurally (same statement skeleton as the executed ollamarunner "
+            "loop), not executed; the cache-length arithmetic next to TruncateStop belongs to C07.",
 }
 
 PROP_MODULES = ["OllamaVerif.Properties.C14"]
@@ -53,6 +56,7 @@ THEOREMS = [
     "OllamaVerif.C14.consumer_schedule_independent",
     "OllamaVerif.C14.c14_streamed_text",
     "OllamaVerif.C14.batch_mates_independent",
+    "OllamaVerif.C14.disconnect_prefix",
     "OllamaVerif.C14.F7_first_listed_not_earliest",
     "OllamaVerif.C14.F20_invalid_bytes_dropped",
     "OllamaVerif.C14.F20_reason_not_injective",
@@ -64,6 +68,7 @@ THEOREMS = [
     "OllamaVerif.Stop.consumed_gen",
     "OllamaVerif.Stop.runSched_eq_run",
     "OllamaVerif.Stop.truncateStop_shape",
+    "OllamaVerif.Stop.run_append",
 ]
 # Model variant the oracle is asked to run: 1 = FindStop as pinned in /repo (first listed stop, finding F7),
 # 0 = the repaired FindStop of proposed_fixes/C14-F7.patch.  ONE EDIT when the fix is applied to /repo: set to 0
@@ -185,7 +190,8 @@ def run(ctx):
         ctx.classify(ctx.l2(outdir))
 
     ctx.assumptions += [
-        "one sequence per Server; the receiver of seq.responses keeps reading (DoneReasonConnectionClosed not modelled)",
+        "after a client disconnect (seq.quit closed) the decode loop's behaviour is not modelled (nondeterministic select); "
+        "only what the client already holds is (disconnect_prefix, L2 disconnect-*)",
         "stop strings are valid UTF-8 when they reach the runner (they arrive through encoding/json); the stop clauses "
         "of the theorems and the L2 stop monitors are stated for valid, non-empty stops",
         "llamarunner's per-token loop is tied by the regenerated statement skeleton, not executed (needs llama.cpp + model file)",
@@ -199,7 +205,10 @@ def run(ctx):
              "well-formed UTF-8 table, x 10 stop sets, all splits into pieces x 9 stops, + seeded random longer texts; "
              "loop: the F7/F20 corpus, every split of up to 8 short texts x 11 stop sets x 4 limits x EOS/no EOS, + seeded "
              "random scripts (4 000 quick / 600 000 thorough) (multi-byte characters and stops split across tokens, glued tokens, invalid bytes, empty pieces, "
-             "EOS anywhere, limits -1..n+2); distinct = distinct oracle command lines",
+             "EOS anywhere, limits -1..n+2); consumer schedules: scripts of 1..2*cap+40 streamed chunks x readers stalled for "
+             "k tokens around/above the channel capacity, until the end, one read per token, bursts, every other token, "
+             "disconnect at some token (500 quick / 20 000 thorough); 2-3 sequences per Server x batch sizes 1,2,3,4,512 x join "
+             "times 0..8 x prompt lengths 1..5 (600 / 30 000 cases); distinct = distinct oracle command lines",
         explanation="Lean theorems about the model of stop.go/flushPending/processBatch's output logic; the model is tied "
                     "to the code by exact comparison with the real functions and the real processBatch loop (L1), by the "
                     "property predicates evaluated on the real loop's output (L2) and by the regenerated go/ast skeleton "
